@@ -96,6 +96,14 @@ pub fn run(out: &mut Out, thorough: bool, seed: u64, extra: &[String]) {
             _ => (r.below(1 << 31) as i64) - (1 << 30) };
         out.case(&format!("naf {}", nv), "naf", || { let v = hu::naf(nv as i32); fli(&v.iter().map(|&d| d as i64).collect::<Vec<_>>()) });
 
+        // ---- carry primitives, directly: boundary words incl. operand1 + operand2 = 2^64 - 1 with an incoming carry
+        {
+            let bw = |r: &mut Rng| -> u64 { match r.below(8) { 0 => 0, 1 => 1, 2 => u64::MAX, 3 => u64::MAX - 1, 4 => 1u64 << 63, 5 => (1u64 << 63) - 1, _ => r.word() } };
+            let a = bw(&mut r); let b = match r.below(4) { 0 => u64::MAX - a, 1 => (u64::MAX - a).wrapping_add(1), 2 => a, _ => bw(&mut r) }; let c = r.below(2) as u8;
+            out.case(&format!("add_u64_carry {} {} {}", a, b, c), "carry-prim", || { let mut res = 0u64; let co = hu::add_u64_carry(a, b, c, &mut res); format!("{}/{}", res, co) });
+            out.case(&format!("sub_u64_borrow {} {} {}", a, b, c), "carry-prim", || { let mut res = 0u64; let bo = hu::sub_u64_borrow(a, b, c, &mut res); format!("{}/{}", res, bo) });
+            out.case(&format!("multiply_u64_u64 {} {}", a, b), "carry-prim", || { let mut res = [0u64; 2]; hu::multiply_u64_u64(a, b, &mut res); format!("{}/{}", res[0], res[1]) });
+        }
         // ---- multi-word helpers ----
         let n = r.range(1, 8) as usize;
         let lc = format!("limbs{}", n);
